@@ -342,6 +342,12 @@ def run_chunk(binp, job, pid, tier, seed, first, count, workdir, idx, timeout, e
         if rc is None:
             inconc.append("watchdog: %s cases %d.. timed out after %ds at case %d" % (job["engine"], cur, timeout, case))
             break
+        if rc == 77:
+            # the engine reported a violation (e.g. livelock) and abandoned the wedged process
+            sums.append({"t": "sum", "cases": max(0, case - cur + 1), "counters": {"abandoned_processes": 1}, "samples": [],
+                         "exhaustive": False, "partial": True})
+            cur = max(case, cur) + 1
+            continue
         err = ""
         try:
             err = open(errp, "r", errors="replace").read()
